@@ -98,6 +98,8 @@ def served_map(a, content_bytes):
         for name, what in sorted(files.items()):
             rel = (sub + "/" if sub else "") + "metadata/" + name
             out[base + "/" + rel] = content_bytes(KIND_OF_FILE[name], what, "%s/%s/%s" % (a["seed"], sub, name))
+    for rel in a.get("index_pages") or []:            # a web server answers a directory URL with an index page
+        out[base + "/" + rel] = b"<html><body>Index of /" + rel.encode() + b"</body></html>"
     return out
 
 
@@ -218,6 +220,8 @@ def real_url(case, content_bytes, cls_of, build_tree):
         dtmp = tempfile.mkdtemp(prefix="c20d-")
         try:
             for url, data in sorted(served.items()):
+                if url.rsplit("/", 1)[1] not in KIND_OF_FILE:
+                    continue
                 k = KIND_OF_FILE[url.rsplit("/", 1)[1]]
                 for store, how in ((parses, "obj"), (direct, "path")):
                     try:
